@@ -117,7 +117,7 @@ func genC18Genesis(rep *Report, seed uint64, tier string, R int, id *int) {
 			upsText := make([]string, R)
 			for x := 0; x < R; x++ {
 				x := x
-				onOwnGoroutine(func() {
+				inLocalEnv(x, func() {
 					var gs2 opchildtypes.GenesisState
 					if err := e.Enc.Marshaler.UnmarshalJSON(json1, &gs2); err != nil {
 						panic(err)
@@ -190,7 +190,7 @@ func genC18Genesis(rep *Report, seed uint64, tier string, R int, id *int) {
 		prints := make([]c18GenPrint, R)
 		for x := 0; x < R; x++ {
 			x := x
-			onOwnGoroutine(func() {
+			inLocalEnv(x, func() {
 				var gs2 ophosttypes.GenesisState
 				if err := e.Enc.Marshaler.UnmarshalJSON(json1, &gs2); err != nil {
 					panic(err)
